@@ -18,3 +18,13 @@ func VerifEmitLengthLZ(length int) []byte {
 func VerifReadLengthLZ(block []byte) (int, int) {
 	return readLengthLZ(block)
 }
+
+// VerifBWTInverseBiPSIv2 calls the unexported bi-gram inverse with count = len(src).
+func VerifBWTInverseBiPSIv2(b *BWT, src, dst []byte) (uint, uint, error) {
+	return b.inverseBiPSIv2(src, dst, len(src))
+}
+
+// VerifBWTInverseMergeTPSI calls the unexported mergeTPSI inverse with count = len(src).
+func VerifBWTInverseMergeTPSI(b *BWT, src, dst []byte) (uint, uint, error) {
+	return b.inverseMergeTPSI(src, dst, len(src))
+}
